@@ -266,7 +266,7 @@ def check_synth(oi, old, new):
 
 
 N = count(SLOTS)
-NSTEP = 11 if rt.TIER == "quick" else 127
+NSTEP = 11 if rt.TIER == "quick" else 251
 NNEW = (N + NSTEP - 1) // NSTEP
 NS = len(ORDERS) * N * NNEW
 SLO, SHI = rt.shard_range(NS)
